@@ -122,6 +122,23 @@ func buildJail(root string) error {
 				return err
 			}
 		}
+		// decoys of other kinds: an empty file (what an interrupted write leaves behind; a "repair" or "clean-up" has
+		// something to remove), a read-only file, and a directory with the message-file extension
+		if err := write(filepath.Join(lvl, "empty.b2f"), ""); err != nil {
+			return err
+		}
+		if err := write(filepath.Join(lvl, "empty"), ""); err != nil {
+			return err
+		}
+		if err := write(filepath.Join(lvl, "folder.b2f", "child"), "decoy in a directory named like a message "+lvl+"\n"); err != nil {
+			return err
+		}
+		if err := write(filepath.Join(lvl, "ro.b2f"), "read-only decoy "+lvl+"\n"); err != nil {
+			return err
+		}
+		if err := os.Chmod(filepath.Join(root, lvl, "ro.b2f"), 0o444); err != nil {
+			return err
+		}
 		// folders named like mailbox folders next to every ancestor, with decoys inside
 		for _, f := range []string{"in", "out", "sent", "archive"} {
 			for _, n := range DecoyNames[:2] {
@@ -133,6 +150,11 @@ func buildJail(root string) error {
 	}
 	for _, rel := range []string{"abs/x.b2f", "abs/x", "tmp/x.b2f", "etc/passwd", "etc/passwd.b2f", "l1/l2/l3/l4/l5/l6/other/in/x.b2f", "l1/l2/l3/l4/l5/l6/mbox2/in/x.b2f", "a/b.b2f", "a/b"} {
 		if err := write(rel, "decoy "+rel+"\n"); err != nil {
+			return err
+		}
+	}
+	for _, rel := range []string{"abs/empty.b2f", "l1/l2/l3/l4/l5/l6/other/in/empty.b2f"} {
+		if err := write(rel, ""); err != nil {
 			return err
 		}
 	}
